@@ -14,7 +14,7 @@ RULE = ('each documented scalar function x its argument grid: string pool {ASCII
         '-(n+2)..n+2 x lengths {omitted, 0..n+2}, REPLACE needles {single, overlapping, absent, whole, empty via a column}, '
         'CONCAT/CONCAT_WS/COALESCE with 1..4 arguments incl. empty ones, BASE64 round trip, numeric functions on '
         '{0,1,-1,2,10,255,2^63-1,0.5,non-numeric}, date functions on month/year ends and 29 Feb and on the modified column; '
-        'every composition F(G(name)) of 11 string functions (121 pairs) and a depth-3 layer; wrong-kind arguments must '
+        'every composition F(G(name)) and F(G(H(name))) of 11 string functions (121 pairs, 1331 triples); two calls of one function in one query; wrong-kind arguments must '
         'give an empty value or status 2, never a crash; one function call per query')
 ASSUMPTIONS = ['models are written from docs/usage.md; floats compared at 1e-12 relative; NaN equals NaN',
                'INITCAP is compared modulo whitespace normalisation (the doc does not say whether runs are kept)',
@@ -23,7 +23,7 @@ ASSUMPTIONS = ['models are written from docs/usage.md; floats compared at 1e-12 
                'SUBSTR position 0 is not generated (undocumented)']
 BUDGET = {'quick': 50, 'thorough': 600}
 
-STRS = ['hello', 'Hello World', 'MICHAEL SMITH', 'mIxEd cAsE', 'a', 'ab', 'aaa', 'héllo wörld', '中文字', 'éa', 'ΑΒΓ αβγ',
+STRS = ['naïve café', 'ǅemal', 'ÀÉÎÕÜ', 'a\u0301b', 'straße', '𝄞clef', 'tab\tin', 'Z', 'zz top', 'UPPER lower Mixed', '0', '-1', 'hello', 'Hello World', 'MICHAEL SMITH', 'mIxEd cAsE', 'a', 'ab', 'aaa', 'héllo wörld', '中文字', 'éa', 'ΑΒΓ αβγ',
         'a  b', '  lead', 'trail  ', '  both  ', ' ', 'x\ty', 'tab\t', 'a.b-c_d', '12345', 'AbC123', 'ß', 'aaaa', 'abcabc']
 
 
@@ -85,7 +85,7 @@ def gen(tier):
         yield {'k': 'lit', 'expr': 'from_base64(%s)' % q(b64(s)), 'exp': s, 'cmp': 'eq', 'fn': 'from_base64'}
         yield {'k': 'lit', 'expr': 'from_base64(to_base64(%s))' % q(s), 'exp': s, 'cmp': 'eq', 'fn': 'base64-roundtrip'}
     # ---- SUBSTR grid
-    for s in ('hello', 'héllo', 'ab', 'a', '中文字x'):
+    for s in tuple(x for x in STRS if "'" not in x and len(x) <= (7 if tier == 'quick' else 12)):
         n = len(s)
         for pos in range(-(n + 2), n + 3):
             if pos == 0:
@@ -172,11 +172,11 @@ def gen(tier):
     for f in COMPOSE:
         for g in COMPOSE:
             yield {'k': 'comp', 'expr': app(f, app(g, 'name')), 'f': f, 'g': g, 'fn': 'compose'}
-    if tier == 'thorough':
+    if True:
         keys = list(COMPOSE)
         for f in keys:
             for g in keys:
-                for h in keys[:6]:
+                for h in keys:
                     yield {'k': 'comp3', 'expr': app(f, app(g, app(h, 'name'))), 'f': f, 'g': g, 'h': h, 'fn': 'compose3'}
     # ---- wrong-kind arguments: empty value or status 2, never a crash
     for e in ("substr(name, x)", "substr(name, 1, y)", "substr('abc', 1.5)", "power(2, x)", "power(x, 2)", "log(8, b)", "log(x)",
